@@ -595,19 +595,27 @@ func relayFamily(m *Module) []*ssa.Function {
 	return out
 }
 
-// requestRelays: relays that are called from the request methods' plugin loops
-// (i.e. not configure / synchronize, which run during registration).
+// requestRelays: relays that the request methods of the adaptation call for the
+// elements of the plugin list (i.e. not configure / synchronize, which run during registration).
 func requestRelays(m *Module) []*ssa.Function {
 	var out []*ssa.Function
 	for _, f := range relayFamily(m) {
-		if len(f.Params) >= 2 {
-			// relays test the subscription mask
-			for _, ci := range calls(f) {
-				if g := m.callee(ci.Common()); g != nil && g.Name() == "IsSet" {
-					out = append(out, f)
-					break
-				}
+		isReq := false
+		for _, cs := range m.callersOf(f) {
+			rn := recvNamed(cs.Caller)
+			if rn == nil || rn.Obj().Name() != "Adaptation" {
+				continue
 			}
+			args := cs.Instr.Common().Args
+			if len(args) == 0 {
+				continue
+			}
+			if coll, _ := rangeOf(args[0]); coll != nil && m.ap(coll).PathString() == "plugins" {
+				isReq = true
+			}
+		}
+		if isReq {
+			out = append(out, f)
 		}
 	}
 	return out
